@@ -20,6 +20,10 @@ Real code executed symbolically (eko.couplings with np / float / scipy / beta_* 
      array is the stub's final state (a_em untouched where it does not run).  Decided twice: structurally with symbolic beta coefficients
      (exact identity; argument-checked nf, nl), and with the real eko.beta evaluated at exact nf in {3..6}, nl in {2,3} against
      refs/rge_literature.py within 1e-10 relative (inequality on the box of couplings).  LO paths (closed form): ODE by AD, exactly.
+(iv) tau-mass split: the real Couplings.a inside one nf patch, reference and target scales symbolic (forks on np.isclose and on the comparisons with
+     m_tau^2), Couplings.compute an uninterpreted recorder: with QED order >= 1 and the two scales on different sides of m_tau the legs are
+     [ref -> m_tau^2, lepton number of the reference side] and [m_tau^2 -> target, lepton number of the target side], chained; otherwise a single leg
+     (none for coinciding scales); without QED always a single leg.
 (iii) monotonicity: the recorded right-hand side (real eko.beta, nf = 3..6, orders 1-4, QED 0-2) is < 0 for 0 < a_s <= 0.35/(4 pi) (+2% margin),
      0 <= a_em <= 0.01/(4 pi) (+2%): NRA inequality.
 """
@@ -757,6 +761,98 @@ def replay_monotone(point, order, em_running, nf):
 
 
 # ---------------------------------------------------------------------------
+# (iv) the tau-mass split inside one fixed-nf segment of Couplings.a
+# ---------------------------------------------------------------------------
+def _nl(q2):
+    """documented meaning of matchings.lepton_number: 3 leptons above the tau mass, 2 otherwise (independent restatement)"""
+    return 3 if _b(q2 > MTAU2) else 2
+
+
+def case_tau_split(log, orders):
+    cpl = _load()
+    log.encode(cpl.Couplings.a)
+    D = Decider(log)
+
+    def mk(order, em_running):
+        def run():
+            mu0, s = SR.var("mu2_ref"), SR.var("mu2_to")
+            for x in (mu0, s):
+                assume(x - Fraction(1, 2), ">0")
+                assume(10000 - x, ">0")
+            sc = patch_couplings(cpl, order, em_running, mu0)
+            rec = LegRecorder({})
+            sc.compute = rec
+            a_in = [sc.a_ref[0], sc.a_ref[1]]
+            out = sc.a(s, 4)
+            legs = rec.legs
+            tag = "Couplings.a order %r em_running=%r inside the nf=4 patch" % (tuple(order), em_running)
+            rp = (MOD, "replay_tau_split", {"order": list(order), "em_running": em_running})
+            # oracle (plain model; its comparisons are decided under the path condition)
+            close = _b(cpl.np.isclose(mu0, s))
+            if close:
+                want = []
+            elif order[1] == 0 or _nl(mu0) == _nl(s):
+                want = [(_nl(mu0) if order[1] != 0 else None, mu0, s)]
+            else:
+                want = [(_nl(mu0), mu0, MTAU2), (_nl(s), MTAU2, s)]
+            v = prove_zero(SR(0 if len(legs) == len(want) else 1), "%s: %d fixed-flavour leg(s) requested, documented: %d" % (tag, len(legs), len(want)))
+            D(v, key="Couplings.a:tau_split:legs", replay=rp, sampler=_sampler_tau)
+            if len(legs) == len(want):
+                prev = a_in
+                for i, ((args, res), (nl, f, t)) in enumerate(zip(legs, want)):
+                    checks = [("input a_s", args[0], prev[0]), ("input a_em", args[1], prev[1]), ("nf", args[2], 4), ("from", args[4], f), ("to", args[5], t)]
+                    if nl is not None:
+                        checks.append(("number of leptons", args[3], nl))
+                    for nm, got, w in checks:
+                        v = prove_zero(SR(0) + got - w, "%s: leg %d of %d, %s is the documented one" % (tag, i + 1, len(want), nm))
+                        D(v, key="Couplings.a:tau_split:%s" % ("nl" if nm == "number of leptons" else "leg"), replay=rp, sampler=_sampler_tau)
+                    prev = res
+                for j in range(2):
+                    v = prove_zero(SR(0) + out[j] - prev[j], "%s: returned coupling [%d] is the output of the last leg" % (tag, j))
+                    D(v, key="Couplings.a:tau_split:leg", replay=rp, sampler=_sampler_tau)
+            log.twin("domain")
+
+        return run
+
+    for order in orders:
+        for em_running in (True, False):
+            _r, pm = explore(mk(tuple(order), em_running), max_paths=256)
+            log.path_stats(pm)
+
+
+def replay_tau_split(point, order, em_running):
+    """real Couplings (exact method), reference and target inside one nf=4 patch on either side of the tau mass; oracle: the truncated RGEs integrated
+    piecewise with nl = 3 above m_tau and 2 below (literature coefficients)."""
+    import math
+    import numpy as np
+    from eko.couplings import Couplings
+    from eko.quantities.couplings import CouplingEvolutionMethod, CouplingsInfo
+    from eko.quantities.heavy_quarks import QuarkMassScheme
+
+    m0, m1 = float(point.get("mu2_ref", 9.0)), float(point.get("mu2_to", 2.0))
+    a_s, a_em = float(point.get("a_s", 0.02)), float(point.get("a_em", 0.0006))
+    if not (0.7 < m0 < 100 and 0.7 < m1 < 100 and 0.01 <= a_s <= 0.0285 and 0.0002 <= a_em <= 0.00082):
+        return None
+    mt2 = 1.777**2
+    if abs(m0 - mt2) < 0.05 or abs(m1 - mt2) < 0.05:
+        return None
+    order = tuple(order)
+    info = CouplingsInfo(alphas=a_s * 4 * np.pi, alphaem=a_em * 4 * np.pi, ref=(m0**0.5, 4), em_running=em_running)
+    sc = Couplings(info, order, CouplingEvolutionMethod.EXACT, [1.0, 1.0, 1.0], QuarkMassScheme.POLE, [0.0, np.inf, np.inf])
+    got = sc.a(m1, 4)
+    nl0, nl1 = (3 if m0 > mt2 else 2), (3 if m1 > mt2 else 2)
+    if nl0 == nl1:
+        want = _ode(a_s, a_em, math.log(m1 / m0), order, em_running, 4, nl0)
+    else:
+        mid = _ode(a_s, a_em, math.log(mt2 / m0), order, em_running, 4, nl0)
+        want = _ode(mid[0], mid[1], math.log(m1 / mt2), order, em_running, 4, nl1)
+    if abs(got[0] - want[0]) > 3e-5 * abs(want[0]) or abs(got[1] - want[1]) > 3e-5 * abs(want[1]):
+        return {"detail": "couplings %r at mu^2=%r from (%r, %r) at mu0^2=%r (order %r, em_running=%r, nf=4) differ from the RGE solution %r with %d leptons on the reference side and %d on the target side of the tau mass"
+                % (list(got), m1, a_s, a_em, m0, order, em_running, want, nl0, nl1)}
+    return None
+
+
+# ---------------------------------------------------------------------------
 def main():
     chk = H.Check("C15")
     thorough = H.tier() == "thorough"
@@ -769,9 +865,11 @@ def main():
                   "exact: the initial value problem handed to solve_ivp (right-hand side, time rescaling, initial state, result extraction) is the truncated coupled RGE; "
                   "literature comparison within 1e-10 relative on 0 < a_s <= 0.0285, 0 < a_em <= 0.00082",
                   "monotonicity: beta_QCD(a_s, a_em) < 0 on 0 < a_s <= 0.0285 (alpha_s <= 0.358), 0 <= a_em <= 0.00082, nf = 3..6, all orders"]
+    chk.bounds.append("tau-mass split of Couplings.a inside one nf=4 patch: reference and target scale free symbols in (0.5, 1e4) GeV^2 on either side of m_tau^2 "
+                      "(forks), Couplings.compute an uninterpreted recorder; legs, their lepton numbers (3 above m_tau, 2 below) and chaining")
     chk.out_of_claim = ["accuracy of scipy's Radau integrator (rtol 1e-6) and floating-point evaluation of the closed forms",
                         "monotonicity of the *expanded* approximations beyond LO (only their RGE residual is decided)",
-                        "decoupled_running=True (never set by the constructor)", "threshold crossing and the tau-mass split inside Couplings.a (C16, C17)"]
+                        "decoupled_running=True (never set by the constructor)", "threshold crossing inside Couplings.a (C16, C17)"]
     chk.stubs = ["scipy.integrate.solve_ivp -> records its arguments, returns fresh symbols as final state (documented contract: y[:, -1] is the state at t_span[1])",
                  "eko.couplings.{beta_qcd,b_qcd,beta_qed,b_qed} -> argument-checked symbolic coefficients (structural cases only; values are C20's subject)",
                  "builtin float() in eko.couplings -> identity on symbolic values", "np.log(scale_to/scale_from) -> the symbolic logarithm carried by the target-scale token"]
@@ -791,6 +889,7 @@ def main():
         chk.case("exact.literature.nf%d" % nf, case_exact_literature, nf=nf)
     for nf in ((3, 6) if not thorough else (3, 4, 5, 6)):
         chk.case("monotone.nf%d" % nf, case_monotone, nf=nf)
+    chk.case("tau-split", case_tau_split, orders=[(2, 0), (2, 1), (3, 2)] if not thorough else ALL_ORDERS)
     return chk.run()
 
 
